@@ -1287,6 +1287,15 @@ def gen(rng, tier, focus):
         yield (["# nudged=%d" % nudged[k]] if nudged[k] else []) + lines
 
 
+def canon(side, line):
+    """a q= that is not what the histogram gives (stale: a shrunk or hand-written scenario; or a broken histogram) is reported by the
+    implementation as ` oracle-mismatch=<its values>` and by the model as ` hist-mismatch model=<its values> impl=<q=>`: the two
+    lines agree iff the values each side computed agree"""
+    if side == "impl":
+        return re.sub(r" oracle-mismatch=(\S*)", r" q-differs=\1", line)
+    return re.sub(r" hist-mismatch model=(\S*) impl=\S*", r" q-differs=\1", line)
+
+
 # ------------------------------------------------------------------------------------------ accounting
 def describe(ops, outs, hist):
     for l, o in zip(ops, outs):
